@@ -244,4 +244,174 @@ mutual
     | (_, _, v) :: es => 1 + need v + needEntries es
 end
 
+/-! ### list operations on the heap (value.c: cif_value_insert_element_at / remove_element_at / set_element_at)
+
+  The functions take the *fields* of the list object (`HVal.lst`) and return the new fields; the caller stores them back
+  into the object (a free-standing `val` block or the inline value of an `entry`).  Precondition checks that return a
+  result code without touching memory (wrong kind, index out of range) are the subject of Model/Value; here they yield
+  `none` only to keep the functions total. -/
+
+/-- the capacity growth rule of cif_value_insert_element_at: `cap + (cap < 10 ? 4 : cap / 2)` — 0, 4, 8, 12, 18, 27 … -/
+def growCap (cap : Nat) : Nat := cap + (if cap < 10 then 4 else cap / 2)
+
+/-- `cif_value_insert_element_at(list, i, x)`: the element is cloned first (NULL = a fresh unknown value); when
+    `size ≥ capacity` the pointer array is reallocated (modelled as moving: new block, old block released); then the
+    tail is shifted and the clone stored. -/
+def listInsertH (h : Heap) (hv : HVal) (i : Nat) (x : Option V) : Option (HVal × Heap) :=
+  match hv with
+  | .lst elems size =>
+    if i > size then none else
+    match buildNew h (x.getD .unk) with
+    | (c, h1) =>
+      match elems with
+      | none =>
+        match alloc h1 (.arr [c] (growCap 0)) with
+        | (arr, h2) => some (.lst (some arr) 1, h2)
+      | some arr =>
+        match read h1 arr with
+        | some (.arr xs cap) =>
+          if size ≥ cap then
+            match alloc h1 (.arr (xs.insertIdx i c) (growCap cap)) with
+            | (arr', h2) =>
+              match free h2 arr with
+              | none => none
+              | some h3 => some (.lst (some arr') (size + 1), h3)
+          else
+            match write h1 arr (.arr (xs.insertIdx i c) cap) with
+            | none => none
+            | some h2 => some (.lst (some arr) (size + 1), h2)
+        | _ => none
+  | _ => none
+
+/-- `cif_value_remove_element_at(list, i, &removed)` (`toCaller = true`: the element's ownership passes to the caller,
+    who gets its address) or `(list, i, NULL)` (the element is released) -/
+def listRemoveH (fuel : Nat) (h : Heap) (hv : HVal) (i : Nat) (toCaller : Bool) : Option (HVal × Option Nat × Heap) :=
+  match hv with
+  | .lst (some arr) size =>
+    match read h arr with
+    | some (.arr xs cap) =>
+      match xs[i]? with
+      | none => none
+      | some x =>
+        match (if toCaller then some h else freeVal fuel h x) with
+        | none => none
+        | some h1 =>
+          match write h1 arr (.arr (xs.eraseIdx i) cap) with
+          | none => none
+          | some h2 => some (.lst (some arr) (size - 1), (if toCaller then some x else none), h2)
+    | _ => none
+  | _ => none
+
+/-- `cif_value_set_element_at(list, i, x)` for an `x` that is not (part of) the element replaced: the element object is
+    cleaned and the clone's components are built onto it -/
+def listSetH (fuel : Nat) (h : Heap) (hv : HVal) (i : Nat) (x : Option V) : Option Heap :=
+  match hv with
+  | .lst (some arr) _ =>
+    match read h arr with
+    | some (.arr xs _) =>
+      match xs[i]? with
+      | none => none
+      | some t =>
+        match read h t with
+        | some (.val old) =>
+          match cleanVal fuel h old with
+          | none => none
+          | some h1 =>
+            match buildVal h1 (x.getD .unk) with
+            | (new, h2) => write h2 t (.val new)
+        | _ => none
+    | _ => none
+  | _ => none
+
+/-! ### map entries (map.c): key / key_orig aliasing -/
+
+/-- the part of `cif_map_set_item` that records a new spelling for an existing entry: when `key` differs from the
+    entry's original key a copy is allocated and the old original key is released —
+      * repaired code (50deb6e): only if it is not the same block as the normalised key, which stays in use as hash key;
+      * `pinned = true`: unconditionally (the defect F10). -/
+def entryRespell (pinned : Bool) (h : Heap) (e : Nat) (key : Str) : Option Heap :=
+  match read h e with
+  | some (.entry hv k ko) =>
+    match read h ko with
+    | some (.str s) =>
+      if s = key then some h
+      else
+        match alloc h (.str key) with
+        | (ko', h1) =>
+          match (if pinned || ko ≠ k then free h1 ko else some h1) with
+          | none => none
+          | some h2 => write h2 e (.entry hv k ko')
+    | _ => none
+  | _ => none
+
+/-- what `HASH_FIND` reads of an entry: its normalised key string -/
+def entryKey (h : Heap) (e : Nat) : Option Str :=
+  match read h e with
+  | some (.entry _ k _) =>
+    match read h k with
+    | some (.str s) => some s
+    | _ => none
+  | _ => none
+
+/-- the value part of `cif_map_set_item` on an existing entry, for a source outside the entry: clean, then clone onto
+    the inline value -/
+def entrySetValue (fuel : Nat) (h : Heap) (e : Nat) (x : Option V) : Option Heap :=
+  match read h e with
+  | some (.entry old k ko) =>
+    match cleanVal fuel h old with
+    | none => none
+    | some h1 =>
+      match buildVal h1 (x.getD .unk) with
+      | (new, h2) => write h2 e (.entry new k ko)
+  | _ => none
+
+/-- a new entry of a standalone map (`cif_map_set_item`, key not present): the normalised key (allocated by the
+    normaliser), a copy of the key as given, the cloned value, the entry block -/
+def entryNew (h : Heap) (nk key : Str) (x : Option V) : Nat × Heap :=
+  match alloc h (.str nk) with
+  | (ka, h1) =>
+    match alloc h1 (.str key) with
+    | (koa, h2) =>
+      match buildVal h2 (x.getD .unk) with
+      | (hv, h3) => alloc h3 (.entry hv ka koa)
+
+/-- `cif_map_entry_clean_metadata_internal` for a standalone map: the entry has been unlinked and its value is handed to
+    the caller — the key blocks are released, the entry block (= the value object the caller now owns) stays -/
+def entryDetach (h : Heap) (e : Nat) : Option Heap :=
+  match read h e with
+  | some (.entry _ k ko) =>
+    match (if k = ko then some h else free h k) with
+    | none => none
+    | some h1 => free h1 ko
+  | _ => none
+
+/-- `cif_value_free` applied by the caller to a value obtained from `cif_value_remove_item_by_key` /
+    `cif_packet_remove_item`: the object is the entry block -/
+def freeDetached (fuel : Nat) (h : Heap) (e : Nat) : Option Heap :=
+  match read h e with
+  | some (.entry hv _ _) =>
+    match cleanVal fuel h hv with
+    | none => none
+    | some h1 => free h1 e
+  | _ => none
+
+/-- one entry of a map: its blocks and what they represent (`ka = koa` is the sharing cif_packet_create sets up for a
+    name that is already normalised) -/
+def RepEntry (h : Heap) (e : Nat) (k ko : Str) (v : V) (F : List Nat) : Prop :=
+  ∃ hv ka koa F1, h.cell e = some (.entry hv ka koa) ∧ h.cell ka = some (.str k) ∧ h.cell koa = some (.str ko)
+    ∧ Rep h hv v F1 ∧ e ∉ F1 ∧ ka ∉ F1 ∧ koa ∉ F1 ∧ e ≠ ka ∧ e ≠ koa
+    ∧ ((ka = koa ∧ F = ka :: F1 ++ [e]) ∨ (ka ≠ koa ∧ F = ka :: koa :: F1 ++ [e]))
+
+/-- `cif_packet_create` for one name: the normalised name is allocated by the normaliser; the entry aliases it as both
+    key and original key; only if the name as given differs from it is a separate original key allocated -/
+def packetEntryCreate (h : Heap) (nk name : Str) : Nat × Heap :=
+  match alloc h (.str nk) with
+  | (ka, h1) =>
+    match alloc h1 (.entry .unk ka ka) with
+    | (e, h2) =>
+      if name = nk then (e, h2)
+      else
+        match alloc h2 (.str name) with
+        | (koa, h3) => (e, { h3 with cell := fun a => if a = e then some (.entry .unk ka koa) else h3.cell a })
+
 end CifModel.Model.Heap
